@@ -1,13 +1,14 @@
 ------------------------------- MODULE ObjPoolMC -------------------------------
 EXTENDS ObjPool, Json
-CONSTANTS MaxObjs, MaxDepth, NOps, EmitHist
+CONSTANTS MaxObjs, MaxDepth, NOps, EmitHist, AllowedOps
 VARIABLES s, depth, hist
 vars == <<s, depth, hist>>
 Init == s = PNew(PInit, 0) /\ depth = 0 /\ hist = <<>>
 Events == (IF Len(s.lin) < MaxObjs THEN {[op |-> "new"]} \cup [op : {"copy"}, obj : 1..Len(s.lin)] ELSE {})
           \cup [op : {"use"}, obj : 1..Len(s.lin), k : 1..NOps] \cup [op : {"del"}, obj : 1..Len(s.lin)]
+Allowed(e) == e.op \in AllowedOps
 Next == /\ depth < MaxDepth /\ depth' = depth + 1
-        /\ \E e \in Events : Enabled(s, e) /\ s' = PStep(s, e, depth + 1) /\ hist' = IF EmitHist THEN Append(hist, e) ELSE hist
+        /\ \E e \in Events : Allowed(e) /\ Enabled(s, e) /\ s' = PStep(s, e, depth + 1) /\ hist' = IF EmitHist THEN Append(hist, e) ELSE hist
 Spec == Init /\ [][Next]_vars
 \* an event changes the lineage of its target only; deleting changes none; a clone starts from its parent's lineage
 OnlyTargetChanges == [][\A i \in 1..Len(s.lin) : s'.lin[i] # s.lin[i] => \A j \in 1..Len(s.lin) : j # i => s'.lin[j] = s.lin[j]]_vars
